@@ -83,6 +83,21 @@ func VerifH_c16_lifecycle() {
 	vFieldLogEnd()
 }
 
+// VerifH_c16_saver: the periodic saver (test-server.go: dss.save once a
+// second, on its own goroutine) as one more actor of the lock-set analysis.
+func VerifH_c16_saver() {
+	VerifSetup()
+	vFsReset()
+	disp := vNewServer()
+	cs := vNewClientOn(disp)
+	vCmd(cs, "SET", "k", "v")
+	vCmd(cs, "SELECT", "1")
+	vCmd(cs, "SET", "k", "w")
+	vFieldLogBegin("saver", nil)
+	disp.dss.save(vLane)
+	vFieldLogEnd()
+}
+
 // VerifH_c16_pair: native confirmation of one candidate pair (a, b are
 // indexes into vSessionCommands, or len = connect/disconnect): the two are
 // run concurrently in loops on two connections; under -race a genuine race
@@ -91,7 +106,7 @@ func VerifH_c16_lifecycle() {
 func VerifH_c16_pair() {
 	VerifSetup()
 	n := len(vSessionCommands)
-	a, b := vChoice("a", n+1), vChoice("b", n+1)
+	a, b := vChoice("a", n+2), vChoice("b", n+2) // n: connect/disconnect, n+1: the saver
 	am, bm := vChoice("am", 2) == 1, vChoice("bm", 2) == 1
 	disp := vNewServer()
 	c1 := vNewClientOn(disp)
